@@ -21,7 +21,7 @@ LastOf(s) == s[Len(s)]
 
 RequestOK(prev, rec) ==
   LET reps == States(rec.reports) IN
-  /\ Clause("transaction_ids_increase", (prev.act = "Request") => rec.tx > prev.tx)
+  /\ Clause("transaction_ids_increase", (prev.act = "Request" /\ ~rec.reboot) => rec.tx > prev.tx)
   /\ Clause("reports_carry_the_transaction_id", \A i \in DOMAIN rec.reports : rec.reports[i].tx = rec.tx)
   /\ Clause("legal_invocation_state_sequence", Legal(rec.resp, reps))
   /\ Clause("raising_handler_yields_fail_with_error",
@@ -34,6 +34,10 @@ RequestOK(prev, rec) ==
             ~rec.known => (rec.resp = "Fail" /\ rec.resp_error /\ rec.reports = <<>> /\ rec.unchanged))
   /\ Clause("consumer_result_is_final_state",
             rec.result_state = (IF reps = <<>> THEN rec.resp ELSE LastOf(reps)))
+  \* ... with the report parts of this transaction, and of no other (also none of a former provider instance that
+  \* used the same transaction id)
+  /\ Clause("consumer_result_has_the_report_parts_of_this_transaction",
+            rec.result_state # "none" => (Len(rec.result_parts) = Len(reps) /\ Rng(rec.result_parts) = Rng(reps)))
 
 ConsumerOK(rec) ==
   /\ Clause("no_exception_in_operations_manager", rec.errors = <<>>)
